@@ -32,7 +32,7 @@ def list_kind(a, b):
 def worker(sh):
     rng = sh.rng
     sc = wkd.Script(rng)
-    l = 3 if sh.index < 10 else [5, 8, 33, 12, 20, 65][sh.index - 10]
+    l = 3 if sh.index < 10 else [5, 8, 33, 257, 20, 65][sh.index - 10]
     sig = sh.index % 2 == 0
     sc.setup(0, l, sig)
     # ---- adjust_precomputed: all ordered pairs of lists over l=3 with values from a 3-element set (+hidden entries)
